@@ -56,6 +56,50 @@ def gen_wide_sqlprog(rng):
     return p
 
 
+def gen_sorted_then_projected(rng):
+    """A sort absorbed by a SELECT (over a leaf, a chain, a deduplicated relation, a join; sliced or not), then a
+    projection / calculation / selection / deduplication that may drop or shadow the columns the sort needs."""
+    counter = [0]
+    cols = gen.gen_schema(rng, maxk=3, maxn=1, allow_empty=False)
+    counter[0] += 1
+    p = mp.gen_leaf(rng, counter[0], cols, sp.SQL, special=0)
+    cur = set(p[3])
+    shape = rng.choice(["leaf", "chain", "chain", "dedup", "join"])
+    if shape == "chain":
+        counter[0] += 1
+        p = ("chain", p, mp.gen_leaf(rng, counter[0], sorted(cur), sp.SQL, special=0))
+    elif shape == "dedup":
+        p = ("un", ("dedup",), mp.DEFAULT, p)
+    elif shape == "join":
+        counter[0] += 1
+        extra = gen.fresh_tag(rng, cur)
+        ocols = {c for c in cur if c.is_key and rng.random() < 0.7} | {extra}
+        p = ("join", None, True, False, p, mp.gen_leaf(rng, counter[0], sorted(ocols), sp.SQL, special=0))
+        cur = cur | ocols
+    keys = sorted(cur)
+    terms = [(("ref", c), rng.random() < 0.5) for c in rng.sample(keys, rng.choice([1, min(2, len(keys))]))]
+    p = ("un", ("sort", terms), mp.DEFAULT, p)
+    if rng.random() < 0.5:
+        p = ("un", ("slice", rng.choice([0, 1]), rng.choice([2, 3])), mp.DEFAULT, p)
+    if rng.random() < 0.3:
+        p = ("un", ("dedup",), mp.DEFAULT, p)
+    for _ in range(rng.choice([1, 1, 2])):
+        r = rng.random()
+        if r < 0.6:
+            keep = sorted(c for c in cur if rng.random() < 0.5)
+            p = ("un", ("proj", keep), mp.DEFAULT, p)
+            cur = set(keep)
+        elif r < 0.8 and cur:
+            t = gen.fresh_tag(rng, cur) if rng.random() < 0.5 else rng.choice(sorted(set(cols) - cur) or [gen.fresh_tag(rng, cur)])
+            p = ("un", ("calc", t, gen.gen_expr(rng, cur, 1, need_col=True)), mp.DEFAULT, p)
+            cur = cur | {t}
+        else:
+            o, cur2 = gen.gen_op(rng, cur, weights=[0, 2, 0, 2, 1, 1])
+            p = ("un", o, mp.DEFAULT, p)
+            cur = set(cur2)
+    return p
+
+
 def run_sql(p):
     w, rel, res = mp.run_build(p)
     if rel is None:
@@ -109,7 +153,7 @@ def run(ctx):
             out = run_iter(p)
             prog_json, key = jsonable(p), ip.cprog(p)
         else:
-            p = gen_wide_sqlprog(rng)
+            p = gen_sorted_then_projected(rng) if i % 3 == 0 and i % 2 == 0 else gen_wide_sqlprog(rng)
             out = run_sql(p)
             prog_json, key = jsonable(p), mp.cprog(p)
         phases[out["phase"]] = phases.get(out["phase"], 0) + 1
